@@ -34,7 +34,7 @@ COMPONENTS = {
              'python sqlite3 + libsqlite3 on a tmpfs file', 'run family: the algorithms named in the rule'],
     'stub': ['user objective (harness world)', 'time.time', 'uuid1', 'joblib (unused: single writer)'],
 }
-PROBES_EXPECTED = ['foreign_lock', 'resync_same_id', 'inf_value', 'numpy_scalar', 'reference_to_individual', 'nested_custom', 'sync_all',
+PROBES_EXPECTED = ['rewrite_over_other_problem', 'foreign_lock', 'resync_same_id', 'inf_value', 'numpy_scalar', 'reference_to_individual', 'nested_custom', 'sync_all',
                    'run_family', 'view_mid_history']
 
 FIELDS = ('vector', 'costs', 'costs_signed', 'population_id', 'custom', 'features')
@@ -176,7 +176,24 @@ def _store(D):
     path = W.fresh_db('c10')
     p = w.problem
     definition = definition_of(p)
-    store = W.attach_store(w, path)
+    mode = {}
+    if D.dec('cfg', 'rewrite', 5) == 1:
+        # the file already exists and was written for ANOTHER problem (other parameter / cost names, other individuals);
+        # opening it with mode="rewrite" must leave nothing of the old content behind
+        old = W.World(Decisions(None, {"cfg/'names'": 0 if p.parameters[0]['name'] != 'x0' else 2, "cfg/'n'": 4, "cfg/'m'": 3}),
+                      sim, fail='none', name='previous study')
+        ostore = W.attach_store(old, path)
+        for k in range(1 + D.dec('work', 'oldrows', 3)):
+            oi = Individual(W.gen_vector(old, D, 'work', ('ov', k)))
+            oi.id = 1000 + k
+            oi.costs = old.f(oi.vector)
+            with W.quiet():
+                ostore.sync_individual(oi)
+        old.problem.data_store = None
+        ostore = None
+        mode = {'mode': 'rewrite'}
+        ctx.probe('rewrite_over_other_problem')
+    store = W.attach_store(w, path, **mode)
     site = 'SqliteDataStore'
     nops = 1 + D.dec('cfg', 'nops', 20)
     pool = []
